@@ -469,8 +469,9 @@ def execute(spec):
                 elif op[2] == 'deep':
                     # an unrelated value nested far deeper than anything else here, wide at the bottom
                     deep = list(range(120))
-                    for _ in range(85 if op[3] == 1 else 140):
-                        deep = [deep]
+                    for lvl in range(85 if op[3] == 1 else 140):
+                        # every tenth level is wide as well (many containers side by side at that depth)
+                        deep = [deep] + ([[lvl, i] for i in range(40)] if lvl % 10 == 9 else [])
                     P.pformat(deep)
                     bump('deep_prints')
                 else:
